@@ -548,9 +548,8 @@ pub fn pair_actions(n: &Node, alpha: &[(String, Transaction, bool)]) -> Vec<Acti
         let o0 = &a.outputs[0];
         if o0.covhash == addr_true() && o0.denom != Denom::NewCustom {
             let id = a.output_coinid(0);
-            let b = if o0.denom == Denom::Mel || n.model.fee_multiplier == 0 {
-                // (without fees a coin of any denomination moves on its own)
-                Some(tx_t(TxKind::Normal, vec![id], vec![out_t(o0.value.0, o0.denom)], 0, vec![0xc4]))
+            let b = if o0.denom == Denom::Mel {
+                Some(tx_t(TxKind::Normal, vec![id], vec![out_t(o0.value.0, Denom::Mel)], 0, vec![0xc4]))
             } else {
                 // needs a MEL carrier: use a's MEL output if it has one
                 a.outputs.iter().enumerate().find(|(_, o)| o.denom == Denom::Mel && o.covhash == addr_true()).map(|(i, mo)| {
@@ -561,12 +560,16 @@ pub fn pair_actions(n: &Node, alpha: &[(String, Transaction, bool)]) -> Vec<Acti
                 v.push(Action::Batch { label: format!("[{} , chain]", la), txs: vec![a.clone(), b.clone()], expect_ok: true });
                 v.push(Action::Batch { label: format!("[chain , {}]", la), txs: vec![b.clone(), a.clone()], expect_ok: true });
                 // the coin created inside the batch is spent twice: by two different transactions, and twice by one
-                if o0.denom == Denom::Mel || n.model.fee_multiplier == 0 {
-                    let b2 = tx_t(TxKind::Normal, vec![id], vec![out_t(o0.value.0, o0.denom)], 0, vec![0xc6]);
+                {
+                    // (a coin of another denomination travels with the MEL carrier that `chain` uses: the second claimant takes both again)
+                    let mut b2 = b.clone();
+                    b2.data = vec![0xc6].into();
                     v.push(Action::Batch { label: format!("[{} , chain , chain']", la), txs: vec![a.clone(), b.clone(), b2.clone()], expect_ok: false });
                     v.push(Action::Batch { label: format!("[chain' , {} , chain]", la), txs: vec![b2, a.clone(), b.clone()], expect_ok: false });
-                    let d = tx_t(TxKind::Normal, vec![id, id], vec![out_t(o0.value.0, o0.denom), out_t(o0.value.0, o0.denom)], 0, vec![0xc7]);
-                    v.push(Action::Batch { label: format!("[{} , dbl-of-its-output]", la), txs: vec![a.clone(), d], expect_ok: false });
+                    if o0.denom == Denom::Mel {
+                        let d = tx_t(TxKind::Normal, vec![id, id], vec![out_t(o0.value.0, Denom::Mel), out_t(o0.value.0, Denom::Mel)], 0, vec![0xc7]);
+                        v.push(Action::Batch { label: format!("[{} , dbl-of-its-output]", la), txs: vec![a.clone(), d], expect_ok: false });
+                    }
                 }
                 // three-step chain in the worst order
                 if o0.denom == Denom::Mel {
